@@ -5,7 +5,7 @@
 TREE=${1:-/repo}
 export PYTHONPATH="$TREE/src"
 OUT=$(mktemp /tmp/baseline.XXXXXX.xml); OUT2=$(mktemp /tmp/baseline2.XXXXXX.xml)
-cd "$TREE" && env -u IBL_NEUROPIXEL_VERIF /venv/bin/python -m pytest -q -p no:cacheprovider --timeout=900 --continue-on-collection-errors -n 8 --ignore=src/tests/unit/test_ephys_np2.py --junitxml=$OUT >/dev/null 2>&1
+cd "$TREE" && env -u IBL_NEUROPIXEL_VERIF /venv/bin/python -m pytest -q -p no:cacheprovider --timeout=900 --continue-on-collection-errors -n ${BASELINE_N:-8} --ignore=src/tests/unit/test_ephys_np2.py --junitxml=$OUT >/dev/null 2>&1
 CMP=$(mktemp /tmp/_bl_cmp.XXXXXX.py)
 cat > $CMP <<'PY'
 import sys, json, xml.etree.ElementTree as ET
